@@ -286,6 +286,44 @@ class FaultyMemoryCache(MemoryCache):
 
 
 # ---------------------------------------------------------------- stubs
+class UserOption(labrea.types.Evaluatable):
+    """A USER-DEFINED Evaluatable (legal subclass of labrea's): reads one key like a plain Option without templates.  It keeps
+    the set it answers keys() / explain() with -- callers get the very same set object every time."""
+
+    def __init__(self, key, default=None, has_default=False):
+        self.key = key
+        self.default = default
+        self.has_default = has_default
+        self._keys = {key}
+
+    def evaluate(self, options):
+        from confectioner.templating import dotted_key_exists, get_dotted_key
+
+        if dotted_key_exists(self.key, options):
+            return copy.deepcopy(get_dotted_key(self.key, options))
+        if self.has_default:
+            return copy.deepcopy(self.default)
+        raise labrea.exceptions.KeyNotFoundError(self.key, self)
+
+    def validate(self, options):
+        from confectioner.templating import dotted_key_exists
+
+        if not dotted_key_exists(self.key, options) and not self.has_default:
+            raise labrea.exceptions.KeyNotFoundError(self.key, self)
+
+    def keys(self, options):
+        from confectioner.templating import dotted_key_exists
+
+        self.validate(options)
+        return self._keys if dotted_key_exists(self.key, options) else set()
+
+    def explain(self, options=None):
+        return self._keys
+
+    def __repr__(self):
+        return f"UserOption({self.key!r})"
+
+
 class PartialBodyError(ValueError):
     pass
 
@@ -508,6 +546,9 @@ class Program:
         return AllOptions
 
     def _b_opt(self, n):
+        if n.get("impl") == "user":
+            d = n.get("default")
+            return UserOption(n["key"], copy.deepcopy(d["v"]) if d else None, has_default=bool(d))
         kw = {}
         d = n.get("default") or {"t": "none"}
         t = d["t"]
